@@ -244,6 +244,37 @@ func (w *zvIsisWorld) link(name string, up bool) int {
 	return i
 }
 
+// linkBurst delivers several link state changes of one interface back to back from one thread (a flapping link):
+// nothing settles in between, the interface's routines get to run when the scheduler lets them.
+func (w *zvIsisWorld) linkBurst(name string, ups []bool) int {
+	sp := w.specs[name]
+	c := w.du.clients[name]
+	i := len(w.admin)
+	w.adminErr = append(w.adminErr, "")
+	w.adminWhat = append(w.adminWhat, fmt.Sprintf("%s:burst%v", name, ups))
+	w.admin = append(w.admin, vsched.GoNamed("device-update", func() {
+		defer func() {
+			if e := recover(); e != nil {
+				if zvIsAbort(e) {
+					panic(e)
+				}
+				buf := make([]byte, 8192)
+				buf = buf[:runtime.Stack(buf, false)]
+				w.adminErr[i] = fmt.Sprintf("%v\n%s", e, buf)
+			}
+		}()
+		for _, up := range ups {
+			st := uint8(device.IfOperDown)
+			if up {
+				st = device.IfOperUp
+			}
+			c.DeviceUpdate(&zvDev{index: sp.Index, oper: st, addrs: []*bnet.Prefix{sp.Addr}})
+		}
+	}))
+	vsched.Settle()
+	return i
+}
+
 // linksUp brings the links of all given interfaces up the way a device server
 // does for devices that exist at start-up: every interface first learns its
 // device (reported down), then the links come up one by one.
